@@ -17,72 +17,66 @@ open Gen.Tables
 /-! ## direction -/
 
 /-- the direction flag computed by `mkYun` -/
-def yunFwd (l : Lunar) (gender : Int) : Bool :=
+def yun_dir (l : Lunar) (gender : Int) : Bool :=
   (decide (l.yearGanIndexExact % 2 = 0) && decide (gender = 1)) ||
     (!decide (l.yearGanIndexExact % 2 = 0) && !decide (gender = 1))
 
 theorem yun_fwd_eq (l : Lunar) (gender : Int) :
-    yunFwd l gender = (decide (l.yearGanIndexExact % 2 = 0) == decide (gender = 1)) := by
-  unfold yunFwd
+    yun_dir l gender = (decide (l.yearGanIndexExact % 2 = 0) == decide (gender = 1)) := by
+  unfold yun_dir
   cases decide (l.yearGanIndexExact % 2 = 0) <;> cases decide (gender = 1) <;> rfl
 
 /-- the school-2 record built from a minute count -/
-def yunOfMinutes (l : Lunar) (gender minutes : Int) : Yun :=
+def yun_ofMinutes (l : Lunar) (gender minutes : Int) : Yun :=
   let year := Int.tdiv minutes 4320
   let m1 := minutes - year * 4320
   let month := Int.tdiv m1 360
   let m2 := m1 - month * 360
   let day := Int.tdiv m2 12
   let m3 := m2 - day * 12
-  ⟨gender, year, month, day, m3 * 2, yunFwd l gender, l⟩
+  ⟨gender, year, month, day, m3 * 2, yun_dir l gender, l⟩
 
 /-- the school-1 record built from a day difference and the two time-branch indices -/
-def yunOfDays (l : Lunar) (gender dayDiff0 hd0 : Int) : Yun :=
+def yun_ofDays (l : Lunar) (gender dayDiff0 hd0 : Int) : Yun :=
   let hourDiff := if hd0 < 0 then hd0 + 12 else hd0
   let dayDiff := if hd0 < 0 then dayDiff0 - 1 else dayDiff0
   let monthDiff := Int.tdiv (hourDiff * 10) 30
   let month := dayDiff * 4 + monthDiff
   let day := hourDiff * 10 - monthDiff * 30
   let year := Int.tdiv month 12
-  ⟨gender, year, month - year * 12, day, 0, yunFwd l gender, l⟩
+  ⟨gender, year, month - year * 12, day, 0, yun_dir l gender, l⟩
 
 /-- `mkYun` unfolded once the two neighbouring Jie are known -/
 theorem yun_mkYun_eq (l : Lunar) (gender sect : Int) (prev next : String × Solar)
     (hp : l.prevJie false = some prev) (hn : l.nextJie false = some next) :
     mkYun l gender sect =
       if sect = 2 then
-        ((if yunFwd l gender then next.2 else l.solar).subtractMinute
-            (if !yunFwd l gender then prev.2 else l.solar)).map (yunOfMinutes l gender)
+        ((if yun_dir l gender then next.2 else l.solar).subtractMinute
+            (if !yun_dir l gender then prev.2 else l.solar)).map (yun_ofMinutes l gender)
       else
-        ((if yunFwd l gender then next.2 else l.solar).subtract
-            (if !yunFwd l gender then prev.2 else l.solar)).map fun dayDiff0 =>
-          yunOfDays l gender dayDiff0
-            (yunZhiIndex (if yunFwd l gender then next.2 else l.solar) -
-              yunZhiIndex (if !yunFwd l gender then prev.2 else l.solar)) := by
+        ((if yun_dir l gender then next.2 else l.solar).subtract
+            (if !yun_dir l gender then prev.2 else l.solar)).map fun dayDiff0 =>
+          yun_ofDays l gender dayDiff0
+            (yunZhiIndex (if yun_dir l gender then next.2 else l.solar) -
+              yunZhiIndex (if !yun_dir l gender then prev.2 else l.solar)) := by
   obtain ⟨pn, ps⟩ := prev
   obtain ⟨nn, ns⟩ := next
-  unfold mkYun
+  unfold mkYun yun_dir
   simp only [hp, hn]
   by_cases h2 : sect = 2
   · simp only [h2, if_true]
-    cases hs : (if yunFwd l gender then ns else l.solar).subtractMinute
-        (if !yunFwd l gender then ps else l.solar) with
-    | none =>
-      simp only [yunFwd] at hs
-      simp only [hs, Option.map_none]
-    | some minutes =>
-      simp only [yunFwd] at hs
-      simp only [hs, Option.map_some, yunOfMinutes, yunFwd]
+    generalize Solar.subtractMinute _ _ = X
+    cases X <;> rfl
   · simp only [h2, if_false]
-    cases hs : (if yunFwd l gender then ns else l.solar).subtract
-        (if !yunFwd l gender then ps else l.solar) with
-    | none =>
-      simp only [yunFwd] at hs
-      simp only [hs, Option.map_none]
-    | some dayDiff0 =>
-      simp only [yunFwd] at hs
-      simp only [hs, Option.map_some, yunOfDays, yunFwd]
-      split <;> rfl
+    generalize Solar.subtract _ _ = X
+    generalize yunZhiIndex _ - yunZhiIndex _ = hd0
+    cases X with
+    | none => rfl
+    | some d =>
+      simp only [Option.map_some, yun_ofDays]
+      by_cases hlt : hd0 < 0
+      · simp only [hlt, if_true]; rfl
+      · simp only [hlt, if_false]; rfl
 
 /-- direction: forward exactly for yang-year males and yin-year females -/
 theorem yun_direction (l : Lunar) (gender sect : Int) (y : Yun) (h : mkYun l gender sect = some y) :
@@ -102,5 +96,374 @@ theorem yun_direction (l : Lunar) (gender sect : Int) (y : Yun) (h : mkYun l gen
       · rw [Option.map_eq_some_iff] at h
         obtain ⟨m, _, rfl⟩ := h
         exact ⟨rfl, rfl, rfl⟩
+
+/-! ## the two conversions -/
+
+/-- school 2: 4320 minutes = 1 year, 360 = 1 month, 12 = 1 day, 1 minute = 2 hours -/
+theorem yun_sect2_arith (minutes : Int) (hm : 0 ≤ minutes) :
+    let year := Int.tdiv minutes 4320
+    let m1 := minutes - year * 4320
+    let month := Int.tdiv m1 360
+    let m2 := m1 - month * 360
+    let day := Int.tdiv m2 12
+    let hour := (m2 - day * 12) * 2
+    minutes = 4320 * year + 360 * month + 12 * day + hour / 2 ∧ 0 ≤ year ∧ 0 ≤ month ∧ month ≤ 11 ∧ 0 ≤ day ∧ day ≤ 29 ∧ 0 ≤ hour ∧ hour ≤ 22 ∧ hour % 2 = 0 := by
+  intro year m1 month m2 day hour
+  have e1 : year = minutes / 4320 := Int.tdiv_eq_ediv_of_nonneg hm
+  have h1 : 0 ≤ m1 ∧ m1 < 4320 := by simp only [m1]; omega
+  have e2 : month = m1 / 360 := Int.tdiv_eq_ediv_of_nonneg h1.1
+  have h2 : 0 ≤ m2 ∧ m2 < 360 := by simp only [m2]; omega
+  have e3 : day = m2 / 12 := Int.tdiv_eq_ediv_of_nonneg h2.1
+  have h3 : 0 ≤ m2 - day * 12 ∧ m2 - day * 12 < 12 := by omega
+  have e4 : hour = (m2 - day * 12) * 2 := rfl
+  have e5 : m2 = m1 - month * 360 := rfl
+  have e6 : m1 = minutes - year * 4320 := rfl
+  omega
+
+/-- school 1: one day = four months, one two-hour slot = ten days -/
+theorem yun_sect1_arith (dayDiff hourDiff : Int) (hd : 0 ≤ dayDiff) (hh : 0 ≤ hourDiff ∧ hourDiff ≤ 11) :
+    let monthDiff := Int.tdiv (hourDiff * 10) 30
+    let month := dayDiff * 4 + monthDiff
+    let day := hourDiff * 10 - monthDiff * 30
+    let year := Int.tdiv month 12
+    month - year * 12 + 12 * year = 4 * dayDiff + hourDiff / 3 ∧ day = 10 * (hourDiff % 3) ∧
+    0 ≤ year ∧ 0 ≤ month - year * 12 ∧ month - year * 12 ≤ 11 ∧ (day = 0 ∨ day = 10 ∨ day = 20) := by
+  intro monthDiff month day year
+  have e1 : monthDiff = hourDiff * 10 / 30 := Int.tdiv_eq_ediv_of_nonneg (by omega)
+  have e1' : monthDiff = hourDiff / 3 := by omega
+  have e2 : month = dayDiff * 4 + monthDiff := rfl
+  have h2 : 0 ≤ month := by omega
+  have e3 : year = month / 12 := Int.tdiv_eq_ediv_of_nonneg h2
+  have e4 : day = hourDiff * 10 - monthDiff * 30 := rfl
+  omega
+
+/-! ## the neighbouring Jie of a real birth moment -/
+
+theorem yun_nextJie_facts (yv : Int) (l : Lunar) (hts : termsOk yv l.terms = true) (hnow : stampValid l.solar = true)
+    (next : String × Solar) (hn : l.nextJie false = some next) :
+    stampValid next.2 = true ∧ l.solar.stamp < next.2.stamp := by
+  unfold Lunar.nextJie at hn
+  rw [near_forward yv l _ hts hnow, Option.map_eq_some_iff] at hn
+  obtain ⟨e, he, rfl⟩ := hn
+  have hmem := List.mem_of_find?_eq_some he
+  have hp := List.find?_some he
+  unfold selected at hmem
+  have hv := (entries_facts yv l.terms hts).1 e (List.mem_filter.1 hmem).1
+  simp only [decide_eq_true_eq] at hp
+  exact ⟨hv, (key_lt_iff_stamp _ _ hnow hv).1 hp⟩
+
+theorem yun_prevJie_facts (yv : Int) (l : Lunar) (hts : termsOk yv l.terms = true) (hnow : stampValid l.solar = true)
+    (prev : String × Solar) (hp : l.prevJie false = some prev) :
+    stampValid prev.2 = true ∧ prev.2.stamp ≤ l.solar.stamp := by
+  unfold Lunar.prevJie at hp
+  rw [near_backward yv l _ hts hnow, Option.map_eq_some_iff] at hp
+  obtain ⟨e, he, rfl⟩ := hp
+  have hmem := List.mem_of_getLast? he
+  rw [List.mem_filter] at hmem
+  obtain ⟨hmem, hk⟩ := hmem
+  unfold selected at hmem
+  have hv := (entries_facts yv l.terms hts).1 e (List.mem_filter.1 hmem).1
+  simp only [decide_eq_true_eq] at hk
+  refine ⟨hv, ?_⟩
+  have := key_lt_iff_stamp _ _ hnow hv
+  simp only at this ⊢
+  omega
+
+/-- day difference without any year bound (the bound of `daysBetween_eq` is not used by its proof) -/
+theorem yun_daysBetween_eq (ay am ad by_ bm bd : Int) (ha : validYmd ay am ad = true) (hb : validYmd by_ bm bd = true) :
+    daysBetween ay am ad by_ bm bd = some (jdn by_ bm bd - jdn ay am ad) := by
+  unfold daysBetween
+  rw [daysInYear_eq ay am ad ha, daysInYear_eq by_ bm bd hb]
+  simp only
+  by_cases he : ay = by_
+  · subst he
+    simp only [if_true]
+    congr 1; omega
+  · simp only [he, if_false]
+    by_cases hgt : ay > by_
+    · simp only [hgt, if_true]
+      rw [yearsLoop_eq]
+      have := jdn_year_len_all by_
+      rw [show by_ + 1 + ((ay - by_ - 1).toNat : Int) = ay by omega]
+      congr 1; omega
+    · simp only [hgt, if_false]
+      rw [yearsLoop_eq]
+      have := jdn_year_len_all ay
+      rw [show ay + 1 + ((by_ - ay - 1).toNat : Int) = by_ by omega]
+      congr 1; omega
+
+theorem yun_subtract_eq (s o : Solar) (hs : s.valid = true) (ho : o.valid = true) :
+    s.subtract o = some (s.jdn - o.jdn) := by
+  unfold Solar.subtract Solar.jdn
+  exact yun_daysBetween_eq _ _ _ _ _ _ (valid_parts o ho).1 (valid_parts s hs).1
+
+theorem yun_subtractMinute_eq (s o : Solar) (hs : s.valid = true) (ho : o.valid = true) :
+    s.subtractMinute o = some ((s.jdn * 1440 + s.hour * 60 + s.minute) - (o.jdn * 1440 + o.hour * 60 + o.minute)) := by
+  unfold Solar.subtractMinute
+  rw [yun_subtract_eq s o hs ho]
+  simp only
+  split <;> (congr 1; omega)
+
+/-- the interval [a, b] measured by `mkYun`: from the birth moment to the next Jie (forward) or from the previous Jie to the birth moment -/
+theorem yun_interval (yv : Int) (l : Lunar) (gender : Int) (hts : termsOk yv l.terms = true) (hnow : stampValid l.solar = true)
+    (prev next : String × Solar) (hp : l.prevJie false = some prev) (hn : l.nextJie false = some next) :
+    stampValid (if !yun_dir l gender then prev.2 else l.solar) = true ∧
+    stampValid (if yun_dir l gender then next.2 else l.solar) = true ∧
+    (if !yun_dir l gender then prev.2 else l.solar).stamp ≤ (if yun_dir l gender then next.2 else l.solar).stamp := by
+  obtain ⟨hv1, ho1⟩ := yun_nextJie_facts yv l hts hnow next hn
+  obtain ⟨hv2, ho2⟩ := yun_prevJie_facts yv l hts hnow prev hp
+  cases yun_dir l gender
+  · simp only [Bool.not_false, if_true, Bool.false_eq_true, if_false]
+    exact ⟨hv2, hnow, ho2⟩
+  · simp only [Bool.not_true, if_true, Bool.false_eq_true, if_false]
+    exact ⟨hnow, hv1, by omega⟩
+
+/-- the full statement for a real birth moment: the offset is the distance from the birth moment to the next Jie (forward) / from the previous Jie (backward), converted as above -/
+theorem yun_sect2_spec (yv : Int) (l : Lunar) (gender : Int) (hts : termsOk yv l.terms = true) (hnow : stampValid l.solar = true)
+    (prev next : String × Solar) (hp : l.prevJie false = some prev) (hn : l.nextJie false = some next) :
+    ∃ y, mkYun l gender 2 = some y ∧
+      let a := if y.forward then l.solar else prev.2
+      let b := if y.forward then next.2 else l.solar
+      let minutes := (b.jdn * 1440 + b.hour * 60 + b.minute) - (a.jdn * 1440 + a.hour * 60 + a.minute)
+      0 ≤ minutes ∧ minutes = 4320 * y.startYear + 360 * y.startMonth + 12 * y.startDay + y.startHour / 2 ∧
+      0 ≤ y.startMonth ∧ y.startMonth ≤ 11 ∧ 0 ≤ y.startDay ∧ y.startDay ≤ 29 ∧ 0 ≤ y.startHour ∧ y.startHour ≤ 23 := by
+  obtain ⟨hva, hvb, hle⟩ := yun_interval yv l gender hts hnow prev next hp hn
+  rw [yun_mkYun_eq l gender 2 prev next hp hn]
+  simp only [if_true]
+  rw [yun_subtractMinute_eq _ _ (stampValid_parts _ hvb).1 (stampValid_parts _ hva).1]
+  simp only [Option.map_some]
+  refine ⟨_, rfl, ?_⟩
+  have hfw : (yun_ofMinutes l gender
+      ((if yun_dir l gender then next.2 else l.solar).jdn * 1440 + (if yun_dir l gender then next.2 else l.solar).hour * 60 +
+        (if yun_dir l gender then next.2 else l.solar).minute -
+       ((if !yun_dir l gender then prev.2 else l.solar).jdn * 1440 + (if !yun_dir l gender then prev.2 else l.solar).hour * 60 +
+        (if !yun_dir l gender then prev.2 else l.solar).minute))).forward = yun_dir l gender := rfl
+  simp only [hfw]
+  have ea : (if yun_dir l gender then l.solar else prev.2) = (if !yun_dir l gender then prev.2 else l.solar) := by
+    cases yun_dir l gender <;> rfl
+  rw [ea]
+  generalize (if !yun_dir l gender then prev.2 else l.solar) = a at *
+  generalize (if yun_dir l gender then next.2 else l.solar) = b at *
+  have ba := stampValid_bounds a hva
+  have bb := stampValid_bounds b hvb
+  have hmin : 0 ≤ (b.jdn * 1440 + b.hour * 60 + b.minute) - (a.jdn * 1440 + a.hour * 60 + a.minute) := by
+    unfold Solar.stamp Solar.secOfDay at hle
+    omega
+  generalize (b.jdn * 1440 + b.hour * 60 + b.minute) - (a.jdn * 1440 + a.hour * 60 + a.minute) = minutes at *
+  have := yun_sect2_arith minutes hmin
+  simp only at this
+  simp only [yun_ofMinutes]
+  omega
+
+/-- the time-branch index used by school 1: 0 for 00:xx, ⌊(h+1)/2⌋ up to 11 for 21:00–23:59 (so it is monotone within a civil day) -/
+theorem yun_zhi_eq (s : Solar) (hs : stampValid s = true) :
+    yunZhiIndex s = if s.hour = 23 then 11 else (s.hour + 1) / 2 := by
+  have b := stampValid_bounds s hs
+  unfold yunZhiIndex
+  by_cases h : s.hour = 23
+  · simp only [h, ne_eq, not_true_eq_false, if_false, if_true]
+  · simp only [ne_eq, h, not_false_eq_true, if_true, if_false]
+    rw [timeZhi_eq s.hour s.minute (by omega) (by omega)]
+    omega
+
+theorem yun_sect1_spec (yv : Int) (l : Lunar) (gender : Int) (hts : termsOk yv l.terms = true) (hnow : stampValid l.solar = true)
+    (prev next : String × Solar) (hp : l.prevJie false = some prev) (hn : l.nextJie false = some next) :
+    ∃ y, mkYun l gender 1 = some y ∧ y.startHour = 0 ∧ 0 ≤ y.startYear ∧ 0 ≤ y.startMonth ∧ y.startMonth ≤ 11 ∧
+      (y.startDay = 0 ∨ y.startDay = 10 ∨ y.startDay = 20) := by
+  obtain ⟨hva, hvb, hle⟩ := yun_interval yv l gender hts hnow prev next hp hn
+  rw [yun_mkYun_eq l gender 1 prev next hp hn]
+  rw [if_neg (by omega)]
+  rw [yun_subtract_eq _ _ (stampValid_parts _ hvb).1 (stampValid_parts _ hva).1]
+  simp only [Option.map_some]
+  refine ⟨_, rfl, ?_⟩
+  generalize (if !yun_dir l gender then prev.2 else l.solar) = a at *
+  generalize (if yun_dir l gender then next.2 else l.solar) = b at *
+  have ba := stampValid_bounds a hva
+  have bb := stampValid_bounds b hvb
+  have za := yun_zhi_eq a hva
+  have zb := yun_zhi_eq b hvb
+  unfold Solar.stamp Solar.secOfDay at hle
+  have hD : 0 ≤ b.jdn - a.jdn := by omega
+  have hza : 0 ≤ yunZhiIndex a ∧ yunZhiIndex a ≤ 11 := by rw [za]; split <;> omega
+  have hzb : 0 ≤ yunZhiIndex b ∧ yunZhiIndex b ≤ 11 := by rw [zb]; split <;> omega
+  have hsame : b.jdn - a.jdn = 0 → 0 ≤ yunZhiIndex b - yunZhiIndex a := by
+    intro h0
+    have hh : a.hour ≤ b.hour := by omega
+    rw [za, zb]
+    split <;> split <;> omega
+  have hrange : -11 ≤ yunZhiIndex b - yunZhiIndex a ∧ yunZhiIndex b - yunZhiIndex a ≤ 11 := by omega
+  clear hza hzb za zb hle ba bb
+  generalize yunZhiIndex b - yunZhiIndex a = hd0 at *
+  generalize b.jdn - a.jdn = D at *
+  by_cases hlt : hd0 < 0
+  · obtain ⟨t1, t2, t3, t4, t5, t6⟩ := yun_sect1_arith (D - 1) (hd0 + 12) (by omega) (by omega)
+    simp only [yun_ofDays, hlt, if_true]
+    exact ⟨trivial, t3, t4, t5, t6⟩
+  · obtain ⟨t1, t2, t3, t4, t5, t6⟩ := yun_sect1_arith D hd0 hD (by omega)
+    simp only [yun_ofDays, hlt, if_false]
+    exact ⟨trivial, t3, t4, t5, t6⟩
+
+/-! ## the start moment -/
+
+/-- the start moment is the birth moment plus the offsets, applied year, month, day, hour in turn (definitional) -/
+theorem startSolar_def (y : Yun) : y.startSolar =
+    (y.lunar.solar.nextYear y.startYear).bind fun a => (a.nextMonth y.startMonth).bind fun b => (b.nextDay y.startDay).bind fun c => c.nextHour y.startHour := rfl
+
+/-- hour stepping never fails in the model and yields a valid date (no year bound needed) -/
+theorem yun_nextHour_valid (s : Solar) (hours : Int) (hv : s.valid = true) :
+    ∃ r, s.nextHour hours = some r ∧ r.valid = true := by
+  rw [nextHour_eq]
+  obtain ⟨k1, k2, k3⟩ := hourDays_spec (s.hour + hours)
+  obtain ⟨o, eo, hov, hj, a1, a2, a3⟩ := nextDay_spec_strong s (hourDays (s.hour + hours)).2 hv
+  rw [eo]
+  simp only
+  have bo := hms_bounds o hov
+  obtain ⟨e, hv0⟩ := newSolar_some o.year o.month o.day (hourDays (s.hour + hours)).1 o.minute o.second
+    (valid_parts o hov).1 ((validHms_iff _ _ _).2 (by omega))
+  exact ⟨_, e, hv0⟩
+
+theorem startSolar_total (y : Yun) (hv : y.lunar.solar.valid = true) (hy : 1 ≤ y.lunar.solar.year) (h0 : 0 ≤ y.startYear) :
+    ∃ s, y.startSolar = some s ∧ s.valid = true := by
+  obtain ⟨a, ea, hva, _⟩ := nextYear_spec y.lunar.solar y.startYear hv
+  obtain ⟨b, eb, hvb, _⟩ := nextMonth_spec a y.startMonth hva
+  obtain ⟨c, ec, hvc, _⟩ := nextDay_spec_strong b y.startDay hvb
+  obtain ⟨d, ed, hvd⟩ := yun_nextHour_valid c y.startHour hvc
+  refine ⟨d, ?_, hvd⟩
+  rw [startSolar_def, ea, Option.bind_some, eb, Option.bind_some, ec, Option.bind_some, ed]
+
+/-! ## great-fortune periods -/
+
+/-- great-fortune periods: period 0 runs from the birth year to the year before the start year (ages 1 …), periods 1,2,… are consecutive ten-year spans
+    whose ages and years line up with the birth year -/
+theorem daYun_chain (y : Yun) (ss : Solar) (hs : y.startSolar = some ss) (i : Int) (hi : 1 ≤ i) :
+    ∃ d d', mkDaYun y i = some d ∧ mkDaYun y (i + 1) = some d' ∧
+      d.endYear = d.startYear + 9 ∧ d.endAge = d.startAge + 9 ∧ d.startAge = d.startYear - y.lunar.solar.year + 1 ∧
+      d'.startYear = d.endYear + 1 ∧ d'.startAge = d.endAge + 1 ∧ d.startYear = ss.year + (i - 1) * 10 := by
+  have h1 : ¬ i < 1 := by omega
+  have h2 : ¬ i + 1 < 1 := by omega
+  unfold mkDaYun
+  simp only [hs, h1, h2, if_false]
+  refine ⟨_, _, rfl, rfl, ?_⟩
+  dsimp only
+  omega
+
+theorem daYun_zero (y : Yun) (ss : Solar) (hs : y.startSolar = some ss) :
+    ∃ d0 d1, mkDaYun y 0 = some d0 ∧ mkDaYun y 1 = some d1 ∧ d0.startYear = y.lunar.solar.year ∧ d0.startAge = 1 ∧
+      d1.startYear = d0.endYear + 1 ∧ d1.startAge = d0.endAge + 1 ∧ d0.endAge = d0.endYear - y.lunar.solar.year + 1 := by
+  have h1 : (0 : Int) < 1 := by omega
+  have h2 : ¬ (1 : Int) < 1 := by omega
+  unfold mkDaYun
+  simp only [hs, h1, h2, if_true, if_false]
+  refine ⟨_, _, rfl, rfl, ?_⟩
+  dsimp only
+  omega
+
+theorem jiazi_len : Gen.Tables.LunarUtil.JIA_ZI.length = 60 := by decide
+
+/-- great-fortune pillars step one by one from the (exact) month pillar in the fortune direction -/
+theorem daYun_pillar (y : Yun) (d : DaYun) (hi : 1 ≤ d.index) (hi2 : d.index ≤ 60)
+    (hm : 0 ≤ ganZhiIndex y.lunar.monthGanIndexExact y.lunar.monthZhiIndexExact ∧ ganZhiIndex y.lunar.monthGanIndexExact y.lunar.monthZhiIndexExact ≤ 59)
+    (hlen : Gen.Tables.LunarUtil.JIA_ZI.length = 60) :
+    d.ganZhi y = jiaZiStr ((ganZhiIndex y.lunar.monthGanIndexExact y.lunar.monthZhiIndexExact + (if y.forward then d.index else -d.index)) % 60) := by
+  unfold DaYun.ganZhi
+  have h1 : ¬ d.index < 1 := by omega
+  simp only [h1, if_false, hlen]
+  generalize ganZhiIndex y.lunar.monthGanIndexExact y.lunar.monthZhiIndexExact = o at *
+  congr 1
+  cases y.forward
+  · simp only [Bool.false_eq_true, if_false]
+    split <;> split <;> omega
+  · simp only [if_true]
+    split <;> split <;> omega
+
+/-! ## annual, minor and monthly fortunes -/
+
+/-- annual fortunes: entry k of a period is the calendar year startYear + k at age startAge + k, and its pillar index is
+    (pillar index of the birth civil year + (that year − birth year)) mod 60 -/
+theorem liuNian_pillar (A : Astro) (y : Yun) (d : DaYun) (k : Int) (ll : Lunar) (hk : 0 ≤ k)
+    (hl : Lunar.fromSolar A (termByName y.lunar.terms "立春") = some ll)
+    (hL : 0 ≤ ganZhiIndex ll.yearGanIndexExact ll.yearZhiIndexExact)
+    (hd : (d.index ≤ 0 ∧ d.startYear = y.lunar.solar.year) ∨ (0 < d.index ∧ d.startAge = d.startYear - y.lunar.solar.year + 1 ∧ 0 ≤ d.startAge - 1)) :
+    liuNianGanZhi A y d k = some (jiaZiStr ((ganZhiIndex ll.yearGanIndexExact ll.yearZhiIndexExact + ((d.startYear + k) - y.lunar.solar.year)) % 60)) := by
+  unfold liuNianGanZhi
+  simp only [hl, jiazi_len]
+  generalize ganZhiIndex ll.yearGanIndexExact ll.yearZhiIndexExact = G at *
+  congr 2
+  rcases hd with ⟨h1, h2⟩ | ⟨h1, h2, h3⟩
+  · have hc : ¬ d.index > 0 := by omega
+    simp only [hc, if_false]
+    rw [Int.tmod_eq_emod_of_nonneg (by omega)]
+    congr 1
+    omega
+  · have hc : d.index > 0 := h1
+    simp only [hc, if_true]
+    rw [Int.tmod_eq_emod_of_nonneg (by omega)]
+    congr 1
+    omega
+
+/-- minor fortunes step from the hour pillar by age (age = k+1 in period 0, startAge + k afterwards), in the fortune direction -/
+theorem xiaoYun_pillar (y : Yun) (d : DaYun) (k : Int) :
+    xiaoYunGanZhi y d k = jiaZiStr ((ganZhiIndex y.lunar.timeGanIndex y.lunar.timeZhiIndex +
+      (if y.forward then 1 else -1) * (k + 1 + (if d.index > 0 then d.startAge - 1 else 0))) % 60) := by
+  unfold xiaoYunGanZhi
+  simp only [jiazi_len]
+  generalize ganZhiIndex y.lunar.timeGanIndex y.lunar.timeZhiIndex = G
+  generalize (k + 1 + (if d.index > 0 then d.startAge - 1 else 0)) = add
+  congr 1
+  cases y.forward
+  · simp only [Bool.false_eq_true, if_false]
+    omega
+  · simp only [if_true]
+    omega
+
+/-- the first character of a pillar name is its stem name -/
+theorem yun_firstChar : ∀ g : Fin 10, ∀ z : Fin 12,
+    String.ofList ((ganStr (g.val : Int) ++ zhiStr (z.val : Int)).toList.take 1) = ganStr (g.val : Int) := by
+  decide
+
+/-- the offset selected by `liuYueGanZhi` from the stem name -/
+def yun_liuYueOffset (yearGan : String) : Int :=
+  if yearGan == "甲" || yearGan == "己" then 2
+  else if yearGan == "乙" || yearGan == "庚" then 4
+  else if yearGan == "丙" || yearGan == "辛" then 6
+  else if yearGan == "丁" || yearGan == "壬" then 8
+  else 0
+
+/-- the ten stem names are pairwise distinct, so the name comparisons select by stem index -/
+theorem yun_offset : ∀ g : Fin 10, yun_liuYueOffset (ganStr (g.val : Int)) = (2 * ((g.val : Int) % 5) + 2) % 10 := by
+  decide
+
+/-- monthly fortunes follow the five-tigers rule from that year's stem g: month index i (0 = 寅月) has stem (2·(g mod 5) + 2 + i) mod 10 and branch (i + 2) mod 12 -/
+theorem liuYue_pillar (g z : Int) (i : Int) (hg : 0 ≤ g ∧ g ≤ 9) (hz : 0 ≤ z ∧ z ≤ 11) (hi : 0 ≤ i ∧ i ≤ 11) :
+    liuYueGanZhi (ganStr g ++ zhiStr z) i = ganStr ((2 * (g % 5) + 2 + i) % 10) ++ zhiStr ((i + 2) % 12) := by
+  obtain ⟨g', rfl⟩ := Int.eq_ofNat_of_zero_le hg.1
+  obtain ⟨z', rfl⟩ := Int.eq_ofNat_of_zero_le hz.1
+  have hfc := yun_firstChar ⟨g', by omega⟩ ⟨z', by omega⟩
+  have hoff := yun_offset ⟨g', by omega⟩
+  simp only at hfc hoff
+  have e : liuYueGanZhi (ganStr (g' : Int) ++ zhiStr (z' : Int)) i =
+      strGetD LunarUtil.GAN ((i + yun_liuYueOffset (String.ofList ((ganStr (g' : Int) ++ zhiStr (z' : Int)).toList.take 1))) % 10 + 1) ++
+        strGetD LunarUtil.ZHI ((i + LunarUtil.BASE_MONTH_ZHI_INDEX) % 12 + 1) := rfl
+  rw [e, hfc, hoff]
+  have e1 : (i + (2 * ((g' : Int) % 5) + 2) % 10) % 10 = (2 * ((g' : Int) % 5) + 2 + i) % 10 := by omega
+  have e2 : (i + LunarUtil.BASE_MONTH_ZHI_INDEX) % 12 = (i + 2) % 12 := rfl
+  rw [e1, e2]
+  have hz2 : ¬ ((i + 2) % 12 + 1 < 0) := by omega
+  simp only [ganStr, ganStr.strGetD', zhiStr, strGetD, hz2, if_false]
+
+#print axioms yun_direction
+#print axioms yun_sect2_arith
+#print axioms yun_sect1_arith
+#print axioms yun_sect2_spec
+#print axioms yun_sect1_spec
+#print axioms startSolar_def
+#print axioms startSolar_total
+#print axioms daYun_chain
+#print axioms daYun_zero
+#print axioms daYun_pillar
+#print axioms jiazi_len
+#print axioms liuNian_pillar
+#print axioms xiaoYun_pillar
+#print axioms liuYue_pillar
 
 end Model
